@@ -326,11 +326,24 @@ std::vector<float> spreadCells(const std::vector<float> &targets,
   }
   return coords;
 }
+
+std::vector<float> clampCoords(const std::vector<float> &coords, float minCoord,
+                               float maxCoord) {
+  std::vector<float> ret;
+  ret.reserve(coords.size());
+  for (float c : coords) {
+    ret.push_back(std::max(minCoord, std::min(maxCoord, c)));
+  }
+  return ret;
+}
 }  // namespace
 
 std::vector<float> HierarchicalDensityPlacement::spreadCoordX(
     const std::vector<float> &target) const {
-  std::vector<float> ret(nbCells(), 0.0f);
+  // Cells without area are in no bin: keep them at their target, within the
+  // placement area
+  std::vector<float> ret = clampCoords(target, placementArea().minX,
+                                       placementArea().maxX);
   for (int i = 0; i < nbBinsX(); ++i) {
     for (int j = 0; j < nbBinsY(); ++j) {
       std::vector<float> binTargets;
@@ -351,7 +364,10 @@ std::vector<float> HierarchicalDensityPlacement::spreadCoordX(
 
 std::vector<float> HierarchicalDensityPlacement::spreadCoordY(
     const std::vector<float> &target) const {
-  std::vector<float> ret(nbCells(), 0.0f);
+  // Cells without area are in no bin: keep them at their target, within the
+  // placement area
+  std::vector<float> ret = clampCoords(target, placementArea().minY,
+                                       placementArea().maxY);
   for (int i = 0; i < nbBinsX(); ++i) {
     for (int j = 0; j < nbBinsY(); ++j) {
       std::vector<float> binTargets;
